@@ -28,7 +28,7 @@ from .c08 import TermEval
 
 CHECK_INVS = {
     "ref": ["InvRefValues", "InvRefBounds", "InvRefEqualLengths", "InvW3jIndexSet", "InvSession"],
-    "xtal": ["InvXtal", "InvSession"],
+    "xtal": ["InvXtal", "InvXtalSizeIndependent", "InvSession"],
     "cfg": ["InvNoTies", "InvWeights", "InvEqualWeightsTerms", "InvExactBounds", "InvW3jIndexSet", "InvFrameAttributes",
             "InvSession"],
 }
@@ -191,6 +191,12 @@ def _worker_replay(args):
     return rec
 
 
+def _worker_big(case):
+    if _WORKER["lib"] is None:
+        return ("violation", "raises:ImportError", {"origin": "scale", "note": "the library could not be imported"})
+    return big_crystal(_WORKER["lib"], case)
+
+
 def _cval(te, v):
     v = te.inexact(v)
     return complex(v)
@@ -269,6 +275,56 @@ def replay_case(ctx, case, origin):
                nontrivial=nontriv,
                sample={"kind": case["kind"], "l": l, "idx": ident["idx"],
                        "q_l(1)": float(te.inexact(te.ev(case["exp"][0]["ql"][0], env)))})
+
+
+def big_crystal_apply(chk, verdict):
+    kind, clause, detail = verdict
+    if kind == "violation":
+        chk.violation(clause, detail)
+    else:
+        chk.ok(("scale", "xtal", detail["l"], detail["edge"]), nontrivial=True)
+        chk.extra["big_crystal"] = detail
+
+
+def big_crystal(lib, case, edge=36):
+    """Scale: the fcc crystal of the emitted case in a cell of edge 36 (23 328 sites, 12 neighbours each: 279 936 bonds, beyond
+    2^18), built with the shell vectors the specification emitted.  By MC_Boo3D!InvXtalSizeIndependent every site of a crystal of
+    any (even) size has the full reference shell, so q_l = Q_l = the reference value for every particle."""
+    import itertools
+    l = case["l"]
+    shell = [tuple(int(x) for x in v) for v in case["shell"]]
+    ref = math.sqrt(float(TermEval().ev(case["ql2ref"])))
+    sites = [p for p in itertools.product(range(edge), repeat=3) if sum(p) % 2 == 0]
+    ident = {"origin": "scale", "kind": "xtal", "name": case["name"], "l": l, "edge": edge, "sites": len(sites), "bonds": len(sites) * len(shell)}
+    if case["name"] != "fcc" or len(sites) * len(shell) <= 2 ** 18:
+        raise common.MachineryError("big crystal: not the fcc case / not beyond 2^18 bonds")
+    who = {p: i + 1 for i, p in enumerate(sites)}
+    nl = [[who[tuple((p[c] + v[c]) % edge for c in range(3))] for v in shell] for p in sites]
+    tmp = common.scratch_dir("verif_c09_big_")
+    try:
+        L = np.array([float(edge)] * 3)
+        snap = lib["SingleSnapshot"](timestep=0, nparticle=len(sites), particle_type=np.ones(len(sites), dtype=int),
+                                     positions=np.array(sites, dtype=float), boxlength=L, boxbounds=np.array([[0.0, x] for x in L]),
+                                     realbounds=None, hmatrix=np.diag(L))
+        snaps = lib["Snapshots"](nsnapshots=1, snapshots=[snap])
+        nfile = os.path.join(tmp, "neighbors.dat")
+        write_lists(nfile, [nl], "id     cn     neighborlist", lambda x: "%d" % x)
+        try:
+            b = lib["boo_3d"](snaps, l, nfile, None, ppp=np.array([1, 1, 1]), Nmax=30)
+            out = {"q_l": np.asarray(b.ql_Ql(coarse_graining=False)), "Q_l": np.asarray(b.ql_Ql(coarse_graining=True))}
+        except Exception as e:  # noqa
+            return ("violation", f"raises:{type(e).__name__}", dict(ident, error=str(e)[:200]))
+        for key, arr in out.items():
+            arr = arr.reshape(-1)
+            bad = np.flatnonzero(~(np.abs(arr - ref) <= 1e-9 + 1e-9 * abs(ref)))
+            if arr.shape != (len(sites),) or len(bad):
+                i = int(bad[0]) if len(bad) else 0
+                return ("violation", "reference:perfect crystal q_l = Q_l = tabulated:scale",
+                        dict(ident, quantity=key, particles_differing=int(len(bad)), particle=i + 1, expected=ref,
+                             observed=float(arr[i]) if arr.size else None))
+        return ("ok", "", ident)
+    finally:
+        shutil.rmtree(tmp, ignore_errors=True)
 
 
 def _sampled_out(ctx, case, call):
@@ -859,6 +915,8 @@ def run(tier, replay=None):
             ordinal[0] += 1
             futures.append(pool.submit(_worker_replay, (c, label, w3j.get(c["l"], []), ordinal[0])))
 
+    big = []
+
     def on_result(label, r):
         chk.add_tlc(r, label)
         if label == "w3j":
@@ -873,6 +931,9 @@ def run(tier, replay=None):
             if not cases:
                 raise common.MachineryError(f"{label}: no cases emitted")
             cases.sort(key=lambda c: json.dumps([c["l"], c.get("idx", c.get("name"))], sort_keys=True))
+            for c in cases:
+                if c.get("kind") == "xtal" and c.get("name") == "fcc" and c["l"] == 6 and not big:
+                    big.append(pool.submit(_worker_big, c))      # scale: one job of the replay pool
             chk.extra.setdefault("cases_emitted", {})[label] = len(cases)
             if not w3j:
                 pending_cases.append((label, cases))
@@ -885,6 +946,9 @@ def run(tier, replay=None):
         if lib["cal_neighbors"] is None:
             chk.assumptions.append("freud not importable: Voronoi lists not exercised in direction B")
         direction_b(ctx, 15 if tier == "quick" else 60)       # runs in this process while the pool replays direction A
+        if not big:
+            raise common.MachineryError("no fcc crystal case with l = 6 was emitted")
+        big_crystal_apply(chk, big[0].result(timeout=3000))    # scale (see big_crystal)
         for fu in futures:
             fu.result().merge_into(chk)
         pairs = set(chk.extra.pop("session_pairs", []))
